@@ -248,6 +248,12 @@ def _history_(g, seed, indent):
     with guarded(40):
         for step in range(rng.randint(3, 9)):
             op = rng.choice(ops); s = text(); k = rng.randint(0, 3) if rng.random() < 0.4 and op != 'parse' else None
+            if not indent and not cached and rng.random() < 0.15 and hasattr(shared, 'grammar'):
+                # another instance compiled from the very same Grammar object, under another priority mode
+                try:
+                    Lark(shared.grammar, parser=rng.choice(['lalr', 'earley']), priority=rng.choice(['invert', None, 'normal']))
+                except (GrammarError, LarkError):
+                    pass
             other = None
             if rng.random() < (0.6 if cached else 0.2):
                 # another instance created in the process in between (when a cache location is shared: of a different configuration, through the same location)
@@ -272,7 +278,22 @@ def _history_(g, seed, indent):
     return {'grammar': INDENT_G if indent else g, 'options': kw, 'indenter': indent, 'history': hist, 'failures': failures, 'cached': cached}
 
 
+def replay_fixed(ctx, res):
+    from lark import Lark
+    for f in ctx['known']:
+        if f['id'] == 'F26' and f['status'] == 'fixed':
+            w = f['witness']
+            for mode in ('invert', None):
+                l1 = Lark(w['grammar'], parser='earley')
+                before = l1.parse(w['text'])
+                Lark(l1.grammar, parser='earley', priority=mode)
+                after = l1.parse(w['text'])
+                if before != after or before.children[0].data != 'a':
+                    res.violation('regression of fixed finding F26: ' + f['what'], dict(w, other_instance_priority=mode, before=str(before), after=str(after)))
+
+
 def run(ctx, res):
+    replay_fixed(ctx, res)
     rng = random.Random(ctx['seed'] * 1000003 + 10)
     tier = ctx['tier']
     # ---- (a) all interleavings of two threads (quick) / sampled interleavings of three (thorough) through the lazy initialisation
